@@ -195,6 +195,17 @@ def _worker(case):
                     out["problems"].append("impacts round trip (%s, fmt=%s) raised %s:%s" % (name, fmt, type(e).__name__, str(e)[:60]))
             if list(ocf.save_impacts()) != list(ocf._impacts):
                 out["problems"].append("save_impacts differs")
+            # an object rebuilt from an exported vector owns its impacts: editing the caller's list afterwards must not reach it
+            vec = list(ocf.save_impacts())
+            keep = list(vec)
+            o4 = RandomMinCRepPreOCF.init_with_impacts_list(bb, vec)
+            ws = list(o4.ranks.keys())
+            first = [o4.rank_world(w) for w in ws[: len(ws) // 2]]
+            for j in range(len(vec)):
+                vec[j] += 3 + j
+            rest = [o4.rank_world(w) for w in ws[len(ws) // 2:]]
+            if first + rest != out["all_o"] or list(o4.save_impacts()) != keep:
+                out["problems"].append("object rebuilt from an impact list follows later edits of the caller's list")
     except BaseException as e:  # noqa
         out["problems"].append("EXC:%s:%s" % (type(e).__name__, str(e)[:150]))
     finally:
